@@ -308,7 +308,20 @@ def gen_hasref(subst=F64_SUBST, extra=()):
     return text, em
 
 
+def gen_m1_f64(subst=F64_SUBST):
+    """Layer-B lemmas over the M1-f64 rounding model (contracts re-stated on the same spec functions)"""
+    em = Emitter('lemmas_m1_f64', Contracts('generic.toml'))
+    parts = [em.render(f, subst) for f in ('shim_m0.vrs', 'traits_core.vrs', 'hasref_specs.vrs', 'trait_hasref.vrs',
+                                           'derived_specs.vrs', 'lemmas_derived_m0.vrs', 'm1_f64.vrs', 'lemmas_m1_f64.vrs')]
+    parts.insert(1, em.lits.decls())
+    text = mark_lemmas(wrap('\n\n'.join(parts)), em.unit)
+    # the extracted bodies in this file are context only (they are obligations of gen_hasref)
+    text = '\n'.join(l for l in text.split('\n') if not (l.strip().startswith('//@ob ') and 'kind=exec' in l))
+    em.records = []
+    return text, em
+
+
 if __name__ == '__main__':
     which = sys.argv[1]
-    text, em = {'quantity': gen_quantity, 'hasref': gen_hasref}[which]()
+    text, em = {'quantity': gen_quantity, 'hasref': gen_hasref, 'm1': gen_m1_f64}[which]()
     sys.stdout.write(text)
